@@ -68,7 +68,7 @@ def one(ctx, pts, c, slopes, kind, opts, family):
         except Exception:
             ctx.tag('oracle-raised')
     # exact-Q model of the elbow theorem: criterion computed in Q from the coordinates
-    if (kind in ('curvature', 'menger', 'kneedle') and n <= 120) or (kind == 'dfdt' and n <= 40):
+    if (kind in ('curvature', 'menger', 'kneedle') and n <= 120) or (kind == 'dfdt' and n <= 40) or (kind == 'lmethod' and n <= 48):
         d = ctx.get_driver()
         out = d.call('elbowQ', [kind, core.rats(pts[:, 0]), core.rats(pts[:, 1])])
         ctx.corr_checked += 1
